@@ -219,9 +219,9 @@ def _simulate(sim: Sim, rec: CallRecord, jobs, W, mode):
         if om == "fifo" or n == 1:
             return None, 0.0
         if om == "reverse":
-            return None, float((n - i) * 1000)
+            return None, float((n - i) * 10)
         if om == "rotate":
-            return None, (1e6 if i == 0 else 0.0)
+            return None, (3600.0 if i == 0 else 0.0)
         k = tape.choose(n_dur, "dur|" + rec.site)
         return k, float(sim.duration_choices[k])
 
